@@ -33,11 +33,37 @@ pub fn run(prop: &str, tier: Tier, seed: u64, o: &mut Out) {
     let (nq, nt) = match mode {
         Mode::C04 | Mode::C09 => (250, 6000),
         Mode::C05 => (1200, 40000),
+        Mode::C08 => (800, 30000),
+        Mode::C17 => (200, 5000),
         _ => (500, 15000),
     };
     aut::run_mode::<StrDom>(mode, tier, &mut rng, nq, nt, CORPUS, o);
     aut::run_mode::<MatDom>(mode, tier, &mut rng, nq, nt, CORPUS, o);
     o.notes.push(format!("{} random cases per domain (pattern sets of 0-8 patterns with duplicates, empty patterns, shared prefixes; planted, random and degenerate hosts)", if tier == Tier::Thorough { nt } else { nq }));
+}
+
+/// C17, cross-process part: one line per case with a hash of everything observable
+/// (state count, rendering, match sequences) - the check driver runs this in several
+/// processes and compares the outputs byte for byte.
+pub fn fingerprints(tier: Tier, seed: u64) -> String {
+    use crate::dom::Dom;
+    let mut rng = Rng::new(seed ^ 0xF17);
+    let n = if tier == Tier::Thorough { 1500 } else { 150 };
+    let mut out = String::new();
+    // perturb the heap / address-space layout a little, differently in every process
+    let noise: Vec<Vec<u8>> = (0..(std::process::id() % 97) as usize).map(|i| vec![0u8; 17 * (i + 1)]).collect();
+    for i in 0..n {
+        if i % 2 == 0 {
+            let c = aut::gen_case::<StrDom>(&mut rng, tier, false);
+            out.push_str(&format!("{} {:016x} {}\n", i, crate::out::hash_str(&aut::fingerprint::<StrDom>(&c)), c.to_s(Mode::C17)));
+        } else {
+            let c = aut::gen_case::<MatDom>(&mut rng, tier, false);
+            out.push_str(&format!("{} {:016x} {}\n", i, crate::out::hash_str(&aut::fingerprint::<MatDom>(&c)), c.to_s(Mode::C17)));
+        }
+    }
+    drop(noise);
+    let _ = StrDom::NAME;
+    out
 }
 
 pub fn replay(line: &str, o: &mut Out) {
